@@ -19,6 +19,18 @@ macro_rules! rt_eps {
         }
     };
 }
+macro_rules! rt_eps_str {
+    ($name:ident, $t:ty, $bound:expr, $cap:expr, $unw:expr, $pos0:expr) => {
+        #[kani::proof]
+        #[kani::unwind($unw)]
+        #[kani::stub(std::string::String::from_utf8, crate::lemmas::stub_from_utf8)]
+        pub fn $name() {
+            let v = <$t as Sym>::sym($bound);
+            lemma_rt_eps::<$t, $cap>(&v, $pos0);
+            kani::cover!(true, "[cover] end of harness reached");
+        }
+    };
+}
 macro_rules! rt_eps_group {
     ($name:ident, $unw:expr, $pos0:expr, [$($t:ty),*]) => {
         #[kani::proof]
@@ -81,7 +93,7 @@ rt_eps!(rt_eps_vec_opt_u8_1, Vec<Option<u8>>, 3, 48, 5, 1);
 // @h rt_eps_vec_vec_u16_1 props=C02,C03,C07 tier=thorough kind=bounded bound="outer<=2, inner<=2" vars="v:Vec<Vec<u16>>, pos0=1" fns="deser/helpers.rs:deserialize_eps_vec_deep"
 rt_eps!(rt_eps_vec_vec_u16_1, Vec<Vec<u16>>, 2, 64, 4, 1);
 // @h rt_eps_string_2 props=C02,C03,C07 tier=quick kind=bounded bound="len<=3, ASCII" vars="v:String, pos0=2" fns="impls/string.rs"
-rt_eps!(rt_eps_string_2, String, 3, 48, 5, 2);
+rt_eps_str!(rt_eps_string_2, String, 3, 48, 5, 2);
 // @h rt_eps_vec_unit_1 props=C02,C03,C07 tier=quick kind=bounded bound="len<=3" vars="v:Vec<()>, pos0=1" fns="impls/vec.rs"
 rt_eps!(rt_eps_vec_unit_1, Vec<()>, 3, 48, 5, 1);
 // @h rt_eps_vec_z8_1 props=C02,C03,C05,C07 tier=thorough kind=bounded bound="len<=2" vars="v:Vec<Z8>, pos0=1" fns="impls/vec.rs,derive:Z8"
